@@ -274,7 +274,11 @@ class Slicer:
         elif isinstance(values, np.ndarray):
             if np.shape(values) != self.shape or np.size(values) != self.size:
                 raise ValueError("Shape or size of values doesn't match.")
-            self.array.__setitem__(self.slices, values)
+            if isinstance(self.slices, list):
+                for index, value in zip(self.slices, values):
+                    self.array.__setitem__(index, [[value]])
+            else:
+                self.array.__setitem__(self.slices, values)
         else:
             self.array.__setitem__(self.slices, [[values]])
 
